@@ -184,7 +184,13 @@ def build(x, funcs=None):
         return getattr(operator, op)(a, b)   # python dispatch, incl. reflected
     if t == 'narop':
         a = B(x['a'])
-        return getattr(a, x['op'])(*[B(y) for y in x['args']])
+        meth = getattr(a, x['op'])
+        if not callable(meth):
+            # Pslide keeps its `wrap` flag in an instance attribute that
+            # shadows the operator method; the builtin function form
+            # (bi.wrap(p, lo, hi)) reaches the same _compose_narop
+            meth = lambda *args: getattr(bi, x['op'])(a, *args)
+        return meth(*[B(y) for y in x['args']])
     if t in ('Prand', 'Pxrand', 'Pshuffle'):
         return getattr(P, t)([B(i) for i in x['list']], rep(x['rep']))
     if t == 'Pwrand':
@@ -544,7 +550,7 @@ def _run_expr(case, v, model):
 INT_LEAF = st.integers(-4, 9)
 FLOAT_LEAF = st.sampled_from([0.5, 1.5, -2.5, 0.25, 2.0, -0.75, 3.5])
 REPS = st.sampled_from([1, 1, 1, 1, 2, 2, 2, 3, 3, 'inf', 'inf', 'inf', 0])
-COUNTS = st.sampled_from([0, 1, 2, 3, 4, 5, 7, 2, 3, 4, 5, 'inf', 'inf', 'inf'])
+COUNTS = st.sampled_from([3, 2, 4, 5, 1, 7, 2, 3, 4, 5, 'inf', 'inf', 'inf', 0])
 FD = st.fixed_dictionaries
 
 
@@ -733,9 +739,9 @@ def E(d, ints=False):
         # filter patterns
         FD({'t': just('Pn'), 'pat': src, 'rep': REPS}),
         FD({'t': just('Plen'), 'pat': src,
-            'n': st.sampled_from([0, 1, 2, 3, 4, 5, 6, 7, 2, 3, 4, 5])}),
+            'n': st.sampled_from([3, 2, 1, 4, 5, 6, 7, 2, 3, 4, 5, 0])}),
         FD({'t': just('Pdrop'), 'pat': src,
-            'n': st.sampled_from([0, 1, 1, 2, 2, 3, 5])}),
+            'n': st.sampled_from([1, 0, 1, 2, 2, 3, 5])}),
         FD({'t': just('Pstutter'), 'pat': src, 'n': count_param(0)}),
         FD({'t': just('Pflatten'), 'pat': st.one_of(L(d - 1, ints),
                                                    L(d - 1, ints), sub),
@@ -803,7 +809,8 @@ def L(d, ints=False):
                 'rep': st.sampled_from([1, 2, 'inf']),
                 'off': st.integers(0, 2)}).map(fix_list),
             FD({'t': just('Pn'), 'pat': sub, 'rep': REPS}),
-            FD({'t': just('Plen'), 'pat': sub, 'n': st.integers(0, 5)}),
+            FD({'t': just('Plen'), 'pat': sub,
+                'n': st.sampled_from([2, 1, 3, 4, 5, 0])}),
             FD({'t': just('Pdrop'), 'pat': sub, 'n': st.integers(0, 3)}),
             FD({'t': just('Pstutter'), 'pat': sub, 'n': count_param(0)}),
             FD({'t': just('Pswitch1'),
@@ -1040,7 +1047,7 @@ def classify_known(stage, case, viol):
 def stages(ctx):
     depth = 5 if ctx.tier == 'thorough' else 4
     return [
-        Stage('expr', run_expr, expr_cases(depth), quick=750, thorough=15000),
-        Stage('seeded', run_seeded, seeded_cases(), quick=150, thorough=2000),
-        Stage('order', run_order, order_cases(), quick=150, thorough=2000),
+        Stage('expr', run_expr, expr_cases(depth), quick=2000, thorough=15000),
+        Stage('seeded', run_seeded, seeded_cases(), quick=300, thorough=2000),
+        Stage('order', run_order, order_cases(), quick=300, thorough=2000),
     ]
